@@ -21,3 +21,17 @@ Lemma nonvac_values :
   /\ rotl_m 8 129 (-2147483648) = Ok 129
   /\ rotl_m 64 9223372036854775809 (-1) = Ok 13835058055282163712.
 Proof. vm_compute. repeat split; reflexivity. Qed.
+
+Lemma W_all : W 8 /\ W 16 /\ W 32 /\ W 64.
+Proof. unfold W; repeat split; lia. Qed.
+
+Lemma nonvac_bits :
+  bit_ceil_dom 8 128 = true /\ bit_ceil_m 8 128 = Ok 128
+  /\ bit_ceil_dom 64 9223372036854775807 = true /\ bit_ceil_m 64 9223372036854775807 = Ok 9223372036854775808
+  /\ countl_zero_m 64 1 = Ok 63 /\ countl_one_m 8 254 = Ok 7 /\ countr_zero_m 64 0 = Ok 64
+  /\ popcount_fallback_m 64 18446744073709551615 = Ok 64
+  /\ flip_bit_m 64 0 63 = Ok 9223372036854775808 /\ test_bit_m 64 0 64 = Contract
+  /\ in_ty i16 (-256) = true /\ byteswap_m i16 (-256) = Ok 255
+  /\ byteswap_fallback_m 64 72623859790382856 = Ok 578437695752307201
+  /\ hton_m 32 305419896 = Ok 2018915346.
+Proof. vm_compute. repeat split; reflexivity. Qed.
